@@ -139,7 +139,10 @@ def ports_oracle(case, obs):
                 continue
             if rec[0] < at and (rec[1] is None or rec[1] > at):
                 # an accepted stream shares its listener's port by design; it still blocks assignment
-                out.append(("%s: ephemeral port %d was handed out while a live %s of the host held it" % (where, port, rec[4]["t"]), None))
+                what = rec[4]["t"]
+                if what in ("stream", "conn"):
+                    what = ("outgoing " if rec[4].get("out") else "accepted ") + "TCP stream (local port %d)" % port
+                out.append(("%s: ephemeral port %d was handed out while a live %s of the host held it" % (where, port, what), None))
     for (_, at, h, where) in pending_checks:
         known = set()
         unknown = 0
@@ -228,7 +231,7 @@ class Spec(PropSpec):
     props_file = "C15.v"
     theorems = ["assign_sound", "assign_complete", "assign_first_free", "bind_in_use", "release_frees",
                 "c15_no_collision", "dns_stable", "dns_injective", "dns_guard_tight", "dns_reverse",
-                "dns_lookup_many_filter", "c15_consts", "c15_nonvacuous"]
+                "dns_lookup_many_filter", "c15_consts", "c15_nonvacuous", "c15_shared_listener_port"]
     consts = CONSTS
     anchors = ANCHORS
     harness_bins = ["ports"]
